@@ -197,6 +197,13 @@ def run_apply(ctx, mods):
 MIX_HOSTS = ['irc.example.org', 'Alt.Example.NET', 'IRC.Example.Org', 'alt.example.net']
 MIX_POLS = ['port=6697,duration=300', 'duration=100,port=7000', 'port=6697,duration=0', 'port=1,duration=1000000', 'port=x,duration=3']
 MIX_CORPUS = [
+    # the server is configured ON the port of its stored policy: verification must still be forced (ssl on / off, verifyCertificates on / off)
+    {'conf': [['irc.example.org', 6697]],
+     'evs': [[0, 'irc.example.org', 'port=6697,duration=3600'], [1, 1010, 'irc.example.org'], [2, 1015], [4, 1020, True, False, False, False],
+             [4, 1030, False, False, False, False], [4, 1040, True, True, False, False], [3], [4, 1050, False, False, False, True], [2, 1060]]},
+    {'conf': [['Alt.Example.NET', 7000], ['irc.example.org', 6697]],
+     'evs': [[0, 'Alt.Example.NET', 'duration=100,port=7000'], [0, 'irc.example.org', 'port=6697,duration=300'], [4, 5, False, False, False, False],
+             [4, 6, True, False, False, False], [2, 7], [2, 8]]},
     # the real connect path: a stored policy, the next configured entry (attempt None), ssl off / on, nothing else configured
     {'conf': [['irc.example.org', 6667]],
      'evs': [[4, 1000, False, False, False, False], [0, 'irc.example.org', 'port=6697,duration=3600'], [1, 1010, 'irc.example.org'],
@@ -221,7 +228,8 @@ MIX_CORPUS = [
 
 
 def gen_mix(rng):
-    conf = [[rng.choice(MIX_HOSTS), rng.choice([6667, 6668, 8000])] for _ in range(rng.choice([1, 2, 2, 3, 4]))]
+    # ports: also the ones the stored policies name (6697, 7000): a server configured ON the policy port must still get verification forced
+    conf = [[rng.choice(MIX_HOSTS), rng.choice([6667, 6668, 8000, 6697, 6697, 7000])] for _ in range(rng.choice([1, 2, 2, 3, 4]))]
     evs, now = [], 1000
     for _ in range(rng.randint(3, 12)):
         now += rng.choice([0, 1, 50, 120, 400])
